@@ -172,22 +172,50 @@ class Poly:
     def subs(self, mapping):
         """mapping: atom -> Poly/Rat/number.  Function-argument atoms are rewritten too."""
         if not mapping:
-            return self
+            return Rat(self)
+        keys = set(mapping)
+        # which atoms of this polynomial are affected (directly or through a function argument)?
+        affected = {}
+        for a in self.atoms():
+            if a in keys:
+                affected[a] = as_rat(mapping[a])
+            elif a[0] == "fn":
+                arg = fn_arg(a)
+                if arg.all_atoms() & keys:
+                    affected[a] = as_rat(mk_fn(a[1], arg.subs(mapping)))
+        if not affected:
+            return Rat(self)
+        keep = {}
         res = Rat(Poly())
+        pow_cache = {}
+        all_poly = all(v.den.is_const() for v in affected.values())
+        acc = Poly()
         for m, c in self.t.items():
-            term = Rat(Poly.const(c))
-            for a, e in m:
-                if a in mapping:
-                    v = as_rat(mapping[a])
-                elif a[0] == "fn":
-                    arg = fn_arg(a)
-                    narg = arg.subs(mapping)
-                    v = as_rat(mk_fn(a[1], narg)) if narg != arg else Rat(Poly.atom(a))
-                else:
-                    v = Rat(Poly.atom(a))
-                term = term * (v ** e)
-            res = res + term
-        return res
+            if not any(a in affected for a, _ in m):
+                keep[m] = c
+                continue
+            rest = tuple((a, e) for a, e in m if a not in affected)
+            if all_poly:
+                term = Poly({rest: c})
+                for a, e in m:
+                    if a in affected:
+                        k = (a, e)
+                        if k not in pow_cache:
+                            pow_cache[k] = as_poly(affected[a]) ** e
+                        term = term * pow_cache[k]
+                acc = acc + term
+            else:
+                term = Rat(Poly({rest: c}))
+                for a, e in m:
+                    if a in affected:
+                        k = (a, e)
+                        if k not in pow_cache:
+                            pow_cache[k] = affected[a] ** e
+                        term = term * pow_cache[k]
+                res = res + term
+        if all_poly:
+            return Rat(Poly(keep) + acc)
+        return res + Rat(Poly(keep))
 
     def map_atoms(self, fn):
         """fn(atom) -> atom (structural renaming, recurses into function args)."""
@@ -650,6 +678,20 @@ def mk_fn(name, arg):
     if name == "abs":
         if arg.is_const():
             return Rat(Poly.const(abs(arg.const_value())))
+        # |s * q| = s * |q| for positive symbols s; |a/b| = |a|/|b|
+        if not arg.den.is_const():
+            return mk_fn("abs", Rat(arg.num)) / mk_fn("abs", Rat(arg.den))
+        pa = as_poly(arg)
+        mono, rest = _split_monomial_content(pa)
+        if mono:
+            sym_part = tuple((a, e) for a, e in mono if a[0] == "s")
+            other = tuple((a, e) for a, e in mono if a[0] != "s")
+            if sym_part:
+                inner = rest * Poly({other: Fraction(1)}) if other else rest
+                return Rat(Poly({sym_part: Fraction(1)})) * mk_fn("abs", Rat(inner))
+        c = pa.content()
+        if c != 1 and c != 0:
+            return Rat(Poly.const(c)) * mk_fn("abs", Rat(pa.scale(1 / c)))
         if _lead_sign(arg) < 0:
             arg = -arg
         return Rat(Poly.atom(("fn", "abs", _intern(arg))))
@@ -698,6 +740,20 @@ def _mk_trig(name, arg):
 # ----------------------------------------------------------------------------
 # Conditions and piecewise trees
 # ----------------------------------------------------------------------------
+def _simple_sign(p):
+    """+1/-1 if p is a sum of same-signed monomials in symbols (all assumed positive), else None"""
+    sign = None
+    for m, c in p.t.items():
+        if any(a[0] != "s" for a, _ in m):
+            return None
+        s = 1 if c > 0 else -1
+        if sign is None:
+            sign = s
+        elif sign != s:
+            return None
+    return sign
+
+
 class Cond:
     """p OP 0 with p a primitive polynomial whose leading coefficient is positive.
     op in {'>', '>=', '<', '<='}; the negation of '>' is '<=' etc."""
@@ -708,14 +764,23 @@ class Cond:
     def __init__(self, p, op):
         p = as_rat(p)
         if not p.den.is_const():
-            # sign of a quotient: require a known-positive denominator upstream
-            raise AlgebraError("condition with a non-constant denominator: %s" % p)
+            # sign of a quotient: the denominator must have a known sign (symbols are positive)
+            sd = _simple_sign(p.den)
+            if sd is None:
+                raise AlgebraError("condition with a denominator of unknown sign: %s" % p)
+            p = Rat(p.num if sd > 0 else -p.num)
         p = as_poly(p)
         if p.is_const():
             self.p, self.op = p, op
             return
         c = p.content()
         p = p.scale(1 / c)
+        mono, rest = _split_monomial_content(p)
+        if mono and all(a[0] == "s" for a, _ in mono):
+            p = rest          # dividing by a positive symbol product does not change the sign
+            if p.is_const():
+                self.p, self.op = p, op
+                return
         _, lc = p.leading()
         if lc < 0:
             p = -p
@@ -726,6 +791,9 @@ class Cond:
         if self.p.is_const():
             v = self.p.const_value()
             return {">": v > 0, ">=": v >= 0, "<": v < 0, "<=": v <= 0}[self.op]
+        s = _simple_sign(self.p)
+        if s is not None:
+            return {">": s > 0, ">=": s > 0, "<": s < 0, "<=": s < 0}[self.op]
         return None
 
     def negate(self):
